@@ -17,7 +17,7 @@ def run(ctx):
               "boxes lo<=hi (incl. lo=hi, negative, type extremes as bounds) x the extremes catalogue per axis {lo,hi,+-1 step around each, "
               "midpoint, type max/lowest and their neighbours, 0, 1, -1, +-inf, +-denorm_min, min normal, -0} crossed over the axes (complete "
               "up to 3000 tuples, sampled beyond) plus random bit patterns; oracle c<lo?lo:(hi<c?hi:c), numeric equality.  (2) clamp over "
-              "strided/morton over array storage (unique id per cell, ASan + library assertions) and over the index-recording probe storage "
+              "strided/morton over array storage (unique id per cell, ASan + library assertions; every second field looked up through a dumped and reloaded copy) and over the index-recording probe storage "
               "(extents up to 2^40 cells, no memory): flat index in range and equal to that of the clamped coordinate.  (3) clamp above "
               "nearest_neighbour and above linear (box [0,extent-1) in the real domain) over strided<array>: value equals that of an admissible "
               "lattice point / the exact interpolant within the C03 bound.  (4) clamp BELOW both interpolators (interp<clamp<strided<array>>>, random "
